@@ -573,6 +573,37 @@ fn iup_contour_optimize(
         .collect())
 }
 
+/// Direct entries to the private interpolation helpers for the out-of-tree
+/// verification harness. Compiled only with `--cfg googlefonts_fontations_verif`;
+/// adds no behaviour.
+#[cfg(googlefonts_fontations_verif)]
+pub mod verif_hooks {
+    use super::*;
+
+    /// `iup_segment`: the deltas inferred for `coords` from the reference
+    /// points `(rc1, rd1)` and `(rc2, rd2)`.
+    pub fn iup_segment(
+        coords: &[Point],
+        rc1: Point,
+        rd1: Vec2,
+        rc2: Point,
+        rd2: Vec2,
+    ) -> Vec<Vec2> {
+        super::iup_segment(coords, rc1, rd1, rc2, rd2)
+    }
+
+    /// `can_iup_in_between`; `None` when it reports an invalid state.
+    pub fn can_iup_in_between(
+        deltas: &[Vec2],
+        coords: &[Point],
+        tolerance: f64,
+        from: isize,
+        to: isize,
+    ) -> Option<bool> {
+        super::can_iup_in_between(deltas, coords, tolerance, from, to).ok()
+    }
+}
+
 #[cfg(test)]
 mod tests {
     use super::*;
